@@ -81,6 +81,17 @@ are kept apart from positions in the whole name ('DB' vs 'D'); `filename.size() 
 may be npos is split into both cases where it is obtained.  beginsWith may be `input.compare(0, prefix.size(), prefix) == 0`
 (early `return false` only for a longer prefix); the prefix-length loop may sit in longestBeginningMatch itself.
 
+Searches that are not std::string members (refactor batch 7): `std::find(first, last, c)` over iterators or pointers is a
+find whose "not found" value is `last`; a scan helper `while (pos < s.size() && set.contains(s[pos]) == flag) ++pos;
+return pos;` over a verified bool[256] character-class table stands for find_first_not_of (flag true) / find_first_of
+(flag false) with "not found" = s.size(); tokens may be built from an iterator pair (`emplace_back(first, stop)`).  A
+tokeniser may hand (offset, length) to a visitor instead of pushing: the emissions are checked like pushes, a caller whose
+lambda does `tokens.push_back(str.substr(offset, length))` is that tokeniser.  The URL constructor may be driven by the
+same walk (another instance of the template checked under R-C18-2/7): R-C18-8 looks into the lambda (cuts over the
+pointer range [data()+offset, +length), remainder given as `separator + 3`), R-C18-9 decides the store order from the
+flag idiom (a bool local, false at first: first call takes the file name and stores nothing, every later call stores
+exactly once, on every path of the lambda).
+
 Helpers: file-local / private helpers are followed with parameters mapped (FileName position helpers are
 summarised into the typestate, a prefix-length index loop stands for std::mismatch, a lookup helper that scans
 from the back and returns the first hit stands for last-duplicate-wins, name=value cutting may live in a helper).
@@ -280,6 +291,16 @@ class FnX(Normalizer):
             if pk == 'UnaryOperator' and p.get('opcode') in ('++', '--'):
                 v['defs'].append(('inc', p, self.pos_of(p)))
                 continue
+            if pk == 'CXXOperatorCallExpr' and '__normal_iterator' in (v['ct'] or '') and len(tu.kids(p)) >= 2 and tu.kids(p)[1] is n:
+                onm = last_name(tu.sd(p).get('q'))
+                if onm == 'operator=' and len(tu.kids(p)) == 3:
+                    v['defs'].append(('assign', tu.kids(p)[2], self.pos_of(p)))
+                    continue
+                if onm in ('operator++', 'operator--'):
+                    v['defs'].append(('inc', dict(p, opcode='++' if onm == 'operator++' else '--'), self.pos_of(p)))
+                    continue
+                if onm in ('operator*', 'operator->', 'operator==', 'operator!=', 'operator<', 'operator+', 'operator-', 'operator[]'):
+                    continue
             if pk == 'MemberExpr' and not is_int_ct(v['ct']):
                 # member call on a class-type local through a non-const path: may modify it
                 if not top_const(v['ct']):
@@ -293,7 +314,8 @@ class FnX(Normalizer):
                 continue        # copies an lvalue argument
             if pk == 'LambdaExpr':
                 continue        # capture: the uses inside the lambda body are visited like any other use
-            if pk == 'CXXMemberCallExpr' and last_name(tu.sd(p).get('q')) in ('emplace_back', 'emplace') and is_int_ct(v['ct']):
+            if pk == 'CXXMemberCallExpr' and last_name(tu.sd(p).get('q')) in ('emplace_back', 'emplace') and \
+                    (is_int_ct(v['ct']) or '__normal_iterator' in (v['ct'] or '') or (v['ct'] or '').rstrip().endswith('*')):
                 continue        # forwarded to a constructor that takes the number by value
             v['escaped'] = True
 
@@ -648,6 +670,151 @@ def rels_of(nf):
 
 
 # ====================================================================================================
+#  searches that are not std::string members: std::find on iterators, a verified character-class scan helper
+# ====================================================================================================
+_CHARSET = {}
+_SKIP = {}
+
+
+def _uchar_index_of(tu, e):
+    """decl id of the char variable v if e is static_cast<unsigned char>(v) / (unsigned char)v"""
+    e0 = tu.strip(e)
+    if e0 is None or e0.get('kind') not in ('CXXStaticCastExpr', 'CStyleCastExpr', 'CXXFunctionalCastExpr') or \
+            plain_ct(tu.sd(e0).get('ct')) != 'unsigned char':
+        return None
+    inner = tu.strip(tu.kids(e0)[-1], casts=True) if tu.kids(e0) else None
+    if inner is not None and inner.get('kind') == 'DeclRefExpr':
+        return inner.get('referencedDecl', {}).get('id')
+    return None
+
+
+def charset_class(tu, recq):
+    """is the class a set of characters: member table of bool indexed by (unsigned char), all false initially, set to true
+    exactly for the characters of the constructor's string argument; contains(c) reads table[(unsigned char)c]"""
+    key = (id(tu), recq)
+    if key in _CHARSET:
+        return _CHARSET[key]
+    _CHARSET[key] = False
+    rec = [r for r in tu.records.values() if r.get('q') == recq]
+    if not rec:
+        return False
+    tables = [fl for fl in rec[0].get('fields', []) if re.match(r'^bool\s*\[\d+\]$', fl.get('ct') or '') and fl.get('hasinit')]
+    if len(tables) != 1 or len(rec[0].get('fields', [])) != 1 or int(re.findall(r'\d+', tables[0]['ct'])[0]) < 256:
+        return False
+    fq = recq + '::' + tables[0]['name']
+    ok_ctor = ok_contains = False
+    for f in tu.functions.values():
+        if f.get('rec') != recq or f['dep'] or tu.body(f) is None or f.get('implicit'):
+            continue
+        body = tu.body(f)
+        writes = [n for n in tu.walk(body) if n.get('kind') in ('BinaryOperator', 'CompoundAssignOperator', 'UnaryOperator') and
+                  n.get('opcode') in ('=', '|=', '&=', '^=', '++', '--') and
+                  any(y.get('kind') == 'MemberExpr' and tu.sd(y).get('q') == fq for y in tu.walk(tu.kids(n)[0]))]
+        if f.get('ctor') == 'other' and len(f.get('params', [])) == 1 and 'basic_string' in f['params'][0]['ct']:
+            stmts = tu.kids(body)
+            if len(stmts) != 1 or stmts[0].get('kind') != 'CXXForRangeStmt' or len(writes) != 1:
+                return False
+            fr_ = stmts[0]
+            rng = [v for v in tu.walk(fr_) if v.get('kind') == 'VarDecl' and (v.get('name') or '').startswith('__range')]
+            src = tu.strip(tu.kids(rng[0])[0], casts=True) if rng and tu.kids(rng[0]) else None
+            lv = None
+            for st in tu.kids(fr_):
+                if st.get('kind') == 'DeclStmt':
+                    for v2 in tu.kids(st):
+                        if v2.get('kind') == 'VarDecl' and not (v2.get('name') or '').startswith('__'):
+                            lv = v2
+            w = writes[0]
+            l, r = tu.kids(w)[:2]
+            l0 = tu.strip(l)
+            if src is None or src.get('referencedDecl', {}).get('id') != f['params'][0]['id'] or lv is None or w.get('opcode') != '=' or \
+                    l0.get('kind') != 'ArraySubscriptExpr' or _uchar_index_of(tu, tu.kids(l0)[1]) != lv['id'] or \
+                    tu.sd(tu.strip(r, casts=True)).get('cv') != '1':
+                return False
+            # the write is the whole loop body
+            ok_ctor = True
+        elif last_name(f['q']) == 'contains':
+            stmts = tu.kids(body)
+            if writes or len(stmts) != 1 or stmts[0].get('kind') != 'ReturnStmt' or len(f.get('params', [])) != 1 or not f.get('const'):
+                return False
+            e = tu.strip(tu.kids(stmts[0])[0], casts=False)
+            e = tu.strip(e)
+            if e is None or e.get('kind') != 'ArraySubscriptExpr' or _uchar_index_of(tu, tu.kids(e)[1]) != f['params'][0]['id'] or \
+                    not any(y.get('kind') == 'MemberExpr' and tu.sd(y).get('q') == fq for y in tu.walk(tu.kids(e)[0])):
+                return False
+            ok_contains = True
+        elif writes:
+            return False
+    _CHARSET[key] = ok_ctor and ok_contains
+    return _CHARSET[key]
+
+
+def skip_helper(tu, hf):
+    """hf(input, pos, set, inSet) = first position >= pos whose character's membership in `set` differs from inSet, or
+    input.size():   while (pos < input.size() && set.contains(input[pos]) == inSet) ++pos; return pos;
+    -> dict(input=i, pos=j, set=k, flag=l) of parameter indices, or None"""
+    key = (id(tu), hf['id'])
+    if key in _SKIP:
+        return _SKIP[key]
+    _SKIP[key] = None
+    ps = hf.get('params', [])
+    if hf['dep'] or tu.body(hf) is None or hf.get('rec') or len(ps) != 4:
+        return None
+    role = {}
+    for i, p in enumerate(ps):
+        ct = p['ct']
+        if 'basic_string' in ct and ct.startswith('const '):
+            role['input'] = i
+        elif plain_ct(ct) == 'bool':
+            role['flag'] = i
+        elif is_int_ct(ct):
+            role['pos'] = i
+        elif ct.startswith('const ') and charset_class(tu, plain_ct(ct)):
+            role['set'] = i
+    if len(role) != 4:
+        return None
+    x = FnX(tu, hf)
+    pid = {k: ps[i]['id'] for k, i in role.items()}
+    stmts = [s_ for s_ in tu.kids(tu.body(hf))]
+    loops = [s_ for s_ in stmts if s_.get('kind') == 'WhileStmt']
+    rets = [s_ for s_ in stmts if s_.get('kind') == 'ReturnStmt']
+    if len(loops) != 1 or len(rets) != 1 or any(s_.get('kind') not in ('WhileStmt', 'ReturnStmt', 'DeclStmt') for s_ in stmts):
+        return None
+    cond, lbody = tu.kids(loops[0])[:2]
+    c0 = tu.strip(cond, casts=True)
+    if c0 is None or c0.get('kind') != 'BinaryOperator' or c0.get('opcode') != '&&':
+        return None
+    a, b = (tu.strip(y, casts=True) for y in tu.kids(c0)[:2])
+    pos_at = x.pos_of(a)
+    ra = x.cond_at(a, True, pos_at)
+    POS, SIZE = Poly.atom(('var', pid['pos'], ps[role['pos']]['name'])), Poly.atom(('size', ('var', pid['input'], ps[role['input']]['name'])))
+    if ra[0] != 'rel' or ra[1] != Rel.make(POS, '<', SIZE):
+        return None
+    if b is None or b.get('kind') != 'BinaryOperator' or b.get('opcode') != '==':
+        return None
+    sides = [tu.strip(y, casts=True) for y in tu.kids(b)[:2]]
+    call = [y for y in sides if y.get('kind') == 'CXXMemberCallExpr' and last_name(tu.sd(y).get('q')) == 'contains']
+    flag = [y for y in sides if x.var_of(y)[0] == pid['flag']]
+    if len(call) != 1 or len(flag) != 1:
+        return None
+    s_, obj, args = tu.call_parts(call[0])
+    if x.var_of(obj)[0] != pid['set'] or len(args) != 1:
+        return None
+    el = tu.strip(args[0], casts=True)
+    if el is None or el.get('kind') not in ('CXXOperatorCallExpr', 'CXXMemberCallExpr') or last_name(tu.sd(el).get('q')) not in ('operator[]', 'at'):
+        return None
+    s2, o2, a2 = tu.call_parts(el)
+    if x.var_of(o2)[0] != pid['input'] or not a2 or x.var_of(a2[0])[0] != pid['pos']:
+        return None
+    incs = [n for n in tu.walk(lbody) if n.get('kind') not in ('CompoundStmt', 'ImplicitCastExpr', 'ParenExpr', 'DeclRefExpr')]
+    if len(incs) != 1 or incs[0].get('kind') != 'UnaryOperator' or incs[0].get('opcode') != '++' or x.var_of(tu.kids(incs[0])[0])[0] != pid['pos']:
+        return None
+    if len(x.vars[pid['pos']]['defs']) != 1 or x.var_of(tu.kids(rets[0])[0])[0] != pid['pos']:
+        return None
+    _SKIP[key] = role
+    return role
+
+
+# ====================================================================================================
 #  R-C18-2 / R-C18-7  tokens
 # ====================================================================================================
 class TokenFn:
@@ -657,34 +824,92 @@ class TokenFn:
         self.tu = tu
         self.f = f
         self.x = FnX(tu, f)
+        self.nf = {}            # search call id -> value that means "not found" (npos, the end iterator, size())
+        self.iter_tokens = set()
 
     # ---- classification of variables
     def find_call(self, e):
         """(name, srckey, args) if e is a std::string find-family call"""
         tu = self.tu
-        e = self.x.peel(e)
-        if e is None or e.get('kind') != 'CXXMemberCallExpr':
+        x = self.x
+        e = x.peel(e)
+        if e is None:
+            return None
+        if e.get('kind') == 'CallExpr':
+            q = tu.sd(e).get('q') or ''
+            args = tu.kids(e)[1:]
+            pos = x.pos_of(e)
+            if q == 'std::find' and len(args) == 3:
+                # std::find(first, last, delimiter): position of the next delimiter in [first, last), `last` if there is none
+                last = x.poly_at(args[1], pos)
+                key = None
+                for a_ in last.atoms(deep=False):
+                    if isinstance(a_, tuple) and a_[0] == 'begin' and last == Poly.atom(a_) + Poly.atom(('size', a_[1])):
+                        key = a_[1]
+                if key is not None:
+                    self.nf[e['id']] = last
+                    return 'find', key, [args[2], args[0]], e
+                return None
+            hf = tu.callee_fn(e)
+            role = skip_helper(tu, hf) if hf is not None else None
+            if role is not None and len(args) == 4:
+                fl = x.poly_at(args[role['flag']], pos).as_int()
+                sd_, sv_ = x.var_of(args[role['set']])
+                init = x.single_init(sd_) if sd_ is not None else None
+                ce = tu.strip(init, casts=True) if init is not None else None
+                dl = None
+                if ce is not None and ce.get('kind') in ('CXXConstructExpr', 'CXXTemporaryObjectExpr'):
+                    ks = [y for y in tu.kids(ce) if y.get('kind') != 'CXXDefaultArgExpr']
+                    if len(ks) == 1:
+                        dl = ks[0]
+                if fl in (0, 1) and dl is not None:
+                    key = x.objkey(args[role['input']])
+                    self.nf[e['id']] = Poly.atom(('size', key))
+                    return ('find_first_not_of' if fl == 1 else 'find_first_of'), key, [dl, args[role['pos']]], e
+            return None
+        if e.get('kind') != 'CXXMemberCallExpr':
             return None
         s, obj, args = tu.call_parts(e)
         q = s.get('q') or ''
         if not q.startswith('std::basic_string<') or last_name(q) not in FIND_ALL:
             return None
-        return last_name(q), self.x.objkey(obj), args, e
+        self.nf[e['id']] = P_NPOS
+        return last_name(q), x.objkey(obj), args, e
 
-    def found_var(self, d):
-        """list of (name, srckey, args, call) of all init/assign definitions if every one is a find call; else None"""
+    def nf_of(self, d):
+        """the values that mean "nothing found" for the searches assigned to variable d"""
+        out = []
+        v = self.x.vars.get(d)
+        for kind, node, pos in (v['defs'] if v else []):
+            if kind in ('init', 'assign') and node is not None:
+                fc = self.find_call(node)
+                if fc is not None and self.nf.get(fc[3]['id']) is not None and self.nf[fc[3]['id']] not in out:
+                    out.append(self.nf[fc[3]['id']])
+        return out
+
+    def found_var(self, d, loose_at=None):
+        """list of (name, srckey, args, call, pos) of all init/assign definitions if every one is a find call; else None.
+        With loose_at = a position: constant initialisers are ignored, provided a search definition dominates that
+        position and nothing redefines the variable in between (size_t end = 0; ... end = find(...); use(end))"""
         v = self.x.vars.get(d)
         if v is None or v['param'] or v['escaped']:
             return None
         out = []
+        skipped = False
         for kind, node, pos in v['defs']:
             if kind in ('init', 'assign'):
                 if node is None:
                     return None
                 fc = self.find_call(node)
                 if fc is None:
+                    if loose_at is not None and self.x.poly_at(node, pos).as_const() is not None:
+                        skipped = True
+                        continue
                     return None
                 out.append(fc + (pos,))
+        if skipped and not any(p_ is not None and self.x.g.dominates(p_, loose_at) and self.x.clean(p_, loose_at, [d])
+                               for n_, k_, a_, c_, p_ in out):
+            return None
         return out or None
 
     def pushes(self):
@@ -701,15 +926,36 @@ class TokenFn:
             if len(args) != 1 and not (last_name(q) == 'emplace_back' and len(args) in (2, 3)):
                 continue
             yield n, obj, (args[0] if len(args) == 1 else list(args)), (b.id, i)
+        # a token handed to a functor parameter:  visit(offset, length)
+        fparams = [p['id'] for p in self.f.get('params', [])]
+        for b, i, n in self.x.g.stmts():
+            if n.get('kind') == 'CXXOperatorCallExpr' and last_name(tu.sd(n).get('q')) == 'operator()':
+                ks = tu.kids(n)[1:]
+                if len(ks) == 3 and self.x.var_of(ks[0])[0] in fparams and \
+                        all(is_int_ct(tu.sd(tu.strip(y, casts=True)).get('ct') or tu.sd(y).get('ct')) for y in ks[1:]):
+                    yield n, ks[0], ('visit', ks[1], ks[2]), (b.id, i)
 
     def token(self, arg, at):
         """describe the pushed token:
            ('substr', srckey, p, [(extra_conds, n or None)], call) | ('getline', var id, call) | None"""
         tu = self.tu
         x = self.x
+        if isinstance(arg, tuple) and arg and arg[0] == 'visit':
+            # visit(offset, length): the token is source.substr(offset, length) of the (only) string parameter
+            sp = [p for p in self.f.get('params', []) if 'basic_string' in p['ct'] and 'vector' not in p['ct']]
+            if len(sp) != 1:
+                return None
+            src = ('var', sp[0]['id'], sp[0]['name'])
+            pp, nn = x.poly_at(arg[1], at), x.poly_at(arg[2], at)
+            if nn == Poly.atom(('size', src)) - pp:
+                nn = None
+            return ('substr', src, pp, [([], nn)], tu.par(arg[1]) or arg[1], None, at)
         if isinstance(arg, list):
             # emplace_back(source, pos[, n]) constructs source.substr(pos[, n]) in place
-            if 'basic_string' in (tu.sd(tu.strip(arg[0], casts=True)).get('ct') or ''):
+            ct0 = tu.sd(tu.strip(arg[0], casts=True)).get('ct') or ''
+            if '__normal_iterator' in ct0 and len(arg) == 2:
+                return self._iters(arg[0], arg[1], tu.strip(arg[0]), at)
+            if 'basic_string' in ct0:
                 return self._substr(arg[0], arg[1:], tu.strip(arg[0]), None, at)
             return None
         e = x.peel(arg)
@@ -742,6 +988,31 @@ class TokenFn:
             return None
         return self._substr(obj, args, e, alias, at)
 
+    def _iters(self, first, last, e, at):
+        """token built from an iterator pair [first, last) into a parameter string"""
+        x = self.x
+        p = x.poly_at(first, at)
+        q = x.poly_at(last, at)
+        src = None
+        for po in (p, q):
+            for a_ in po.atoms(deep=False):
+                if isinstance(a_, tuple) and a_[0] == 'begin':
+                    src = a_[1]
+                elif isinstance(a_, tuple) and a_[0] == 'var' and a_[1] in x.vars:
+                    for kind, node, dpos in x.vars[a_[1]]['defs']:
+                        if kind in ('init', 'assign') and node is not None:
+                            fc = self.find_call(node)
+                            if fc is not None:
+                                src = src or fc[1]
+                            else:
+                                for b_ in x.poly_at(node, dpos).atoms(deep=False):
+                                    if isinstance(b_, tuple) and b_[0] == 'begin':
+                                        src = src or b_[1]
+        if src is None:
+            return None
+        self.iter_tokens.add(e.get('id'))
+        return ('substr', src, p, [([], q - p)], e, None, at)
+
     def _substr(self, obj, args, e, alias, at):
         tu = self.tu
         x = self.x
@@ -769,6 +1040,42 @@ class TokenFn:
         return ('substr', src, p, alts, e, alias, at)
 
 
+def push_substr_lambda(tu, args, str_id, vec_id):
+    """one of the arguments is a lambda  [&](size_t offset, size_t length) { vec.push_back(str.substr(offset, length)); }"""
+    for a in args:
+        for y in tu.walk(a):
+            if y.get('kind') != 'LambdaExpr':
+                continue
+            op = tu.functions.get(tu.sd(y).get('op'))
+            body = tu.body(op) if op is not None else None
+            if body is None or len(op.get('params', [])) != 2:
+                continue
+            calls = [z for z in tu.walk(body) if z.get('kind') in ('CXXMemberCallExpr', 'CallExpr', 'CXXOperatorCallExpr') and
+                     last_name(tu.sd(z).get('q')) not in ('substr',)]
+            if len(calls) != 1 or last_name(tu.sd(calls[0]).get('q')) != 'push_back':
+                continue
+            s_, obj, cargs = tu.call_parts(calls[0])
+            o = tu.strip(obj, casts=True) if obj is not None else None
+            if o is None or o.get('kind') != 'DeclRefExpr' or o.get('referencedDecl', {}).get('id') != vec_id or len(cargs) != 1:
+                continue
+            e = cargs[0]
+            for _ in range(6):
+                e = tu.strip(e, casts=True)
+                if e is not None and e.get('kind') in ('CXXConstructExpr',) and len(tu.kids(e)) == 1:
+                    e = tu.kids(e)[0]
+                else:
+                    break
+            if e is None or e.get('kind') != 'CXXMemberCallExpr' or last_name(tu.sd(e).get('q')) != 'substr':
+                continue
+            s2, o2, a2 = tu.call_parts(e)
+            o2 = tu.strip(o2, casts=True) if o2 is not None else None
+            ids = [(tu.strip(z, casts=True) or {}).get('referencedDecl', {}).get('id') for z in a2]
+            if o2 is not None and o2.get('kind') == 'DeclRefExpr' and o2.get('referencedDecl', {}).get('id') == str_id and \
+                    ids == [p_['id'] for p_ in op['params']]:
+                return True
+    return False
+
+
 def token_worker(tu, f, depth=0):
     """the function that actually pushes the tokens: f itself, or the function in the same file it hands its string, its
     delimiter and its token vector to (tokenize -> tokenizeFrom(str, 0, delim, tokens))"""
@@ -789,6 +1096,8 @@ def token_worker(tu, f, depth=0):
         vec = [p['id'] for p in f.get('params', []) if 'vector' in p['ct']]
         strs = [p['id'] for p in f.get('params', []) if 'basic_string' in p['ct'] and 'vector' not in p['ct']]
         if strs and all(sv in passed for sv in strs[:1]) and (not vec or all(vv in passed for vv in vec)):
+            cands.append(hf)
+        elif strs and strs[0] in passed and vec and push_substr_lambda(tu, tu.kids(n)[1:], strs[0], vec[0]):
             cands.append(hf)
     if len(cands) == 1:
         return token_worker(tu, cands[0], depth + 1)
@@ -834,7 +1143,9 @@ def check_tokens(ctx, tu, qnames):
                     inst = '%s: push_back(%s) [%s]' % (sig, tu.show(sub), kind)
                     nlen = (Poly.atom(('size', src)) - p) if n is None else n
                     check_filter(ctx, tu, tf, R2, inst, '%s|%s|%s|%s' % (R2, file, fname, kind), call, pos, extra, nlen,
-                                 alias, at, loc, rest_len=Poly.atom(('size', src)) - p)
+                                 alias, at, loc,
+                                 rest_len=(Poly.atom(('begin', src)) if sub.get('id') in tf.iter_tokens else Poly.const(0)) +
+                                 Poly.atom(('size', src)) - p)
                     check_extent(ctx, tu, tf, R7, inst, '%s|%s|%s|%s' % (R7, file, fname, kind), call, pos, extra, src, p,
                                  n, at, loc)
             if n2 > before:
@@ -927,19 +1238,15 @@ def is_found_test(tf, leaf):
     r = leaf[1]
     if r.op not in ('==', '!='):
         return None
-    d = r.p - P_NPOS
-    a = d.as_atom()
-    if a is None:
-        a = (-(r.p) - P_NPOS).as_atom()
-    if a is None:
-        a = (r.p + P_NPOS).as_atom()
-    if a is None:
-        a = (-(r.p) + P_NPOS).as_atom()
-    if isinstance(a, tuple) and a and a[0] == 'var' and tf.found_var(a[1]):
-        return a[1], r.op
-    if isinstance(a, tuple) and a and a[0] == 'var' and a[1] in tf.x.vars and \
-            any(k_ in ('init', 'assign') and nd_ is not None and tf.find_call(nd_) is not None for k_, nd_, p_ in tf.x.vars[a[1]]['defs']):
-        return a[1], r.op      # some value of the variable is the result of a search: npos means "nothing found"
+    for a in r.p.atoms(deep=False):
+        if not (isinstance(a, tuple) and a and a[0] == 'var' and a[1] in tf.x.vars):
+            continue
+        lin = r.p.linear_in(a)
+        if lin is None or lin[0] not in (1, -1):
+            continue
+        other = lin[1] * (-1 if lin[0] == 1 else 1)          # the value the variable is compared with
+        if other in tf.nf_of(a[1]):
+            return a[1], r.op      # some value of the variable is the result of a search: this value means "nothing found"
     return None
 
 
@@ -1004,6 +1311,9 @@ def check_filter(ctx, tu, tf, rule, inst, key, call, pos, extra, nlen, alias, at
                     (cpos == pos or x.clean(cpos, pos, x.var_ids(p, rest_len))):
                 seen.append(tu.show(cn))
                 continue
+            if ab2 is not None and r.op == '!=' and ab2[1] == 0 and (cpos == pos or x.clean(cpos, pos, x.var_ids(p, rest_len))):
+                seen.append(tu.show(cn))      # `start != end of the input`
+                continue
         und.append('cannot classify the condition `%s` that guards the push_back' % tu.show(cn))
     if bad:
         for b in bad:
@@ -1033,7 +1343,7 @@ def check_extent(ctx, tu, tf, rule, inst, key, call, pos, extra, src, p, n, at, 
 
     def delim_found(d, need_start=None):
         """check that d is a delimiter-found variable on src; returns list of problems / None if not a found var"""
-        fv = tf.found_var(d)
+        fv = tf.found_var(d) or tf.found_var(d, loose_at=pos)
         if not fv:
             return None
         out = []
@@ -1080,7 +1390,7 @@ def check_extent(ctx, tu, tf, rule, inst, key, call, pos, extra, src, p, n, at, 
             # end = F + c ?
             hit = None
             for a in end.atoms(deep=False):
-                if isinstance(a, tuple) and a[0] == 'var' and tf.found_var(a[1]):
+                if isinstance(a, tuple) and a[0] == 'var' and delim_found(a[1]) is not None:
                     c = (end - Poly.atom(a)).as_const()
                     if c is not None:
                         hit = (a, c)
@@ -1116,7 +1426,7 @@ def check_extent(ctx, tu, tf, rule, inst, key, call, pos, extra, src, p, n, at, 
             for leaf, cn, cpos in guard_leaves(tu, x, pos, extra, at):
                 if leaf is None or leaf[0] != 'rel':
                     continue
-                if leaf[1] == Rel.make(Poly.atom(pa), '!=', P_NPOS):
+                if any(leaf[1] == Rel.make(Poly.atom(pa), '!=', nf_) for nf_ in tf.nf_of(pa[1])):
                     # adjustments made under an option parameter (keepDelim) belong to the clause that is not decided
                     keep = pvv['defs']
                     pvv['defs'] = [df for df in keep if not (df[0] in ('inc', 'compound') and df[2] and any(
@@ -1192,6 +1502,9 @@ def check_extent(ctx, tu, tf, rule, inst, key, call, pos, extra, src, p, n, at, 
                                     q2 = x.poly_at(n2, p2)
                                     if q2.as_const() == 0:
                                         continue
+                                    fc2 = tf.find_call(n2)
+                                    if fc2 is not None and fc2[0] in FIND_DELIM and fc2[1] == src:
+                                        continue        # the continuation point is itself the position of a found delimiter
                                     a2 = q2.as_atom()
                                     if isinstance(a2, tuple) and a2[0] == 'var' and delim_found(a2[1]) is not None:
                                         continue
@@ -1213,6 +1526,8 @@ def check_extent(ctx, tu, tf, rule, inst, key, call, pos, extra, src, p, n, at, 
                 if q.as_const() == 0:
                     continue
                 qa = q.as_atom()
+                if qa == ('begin', src):
+                    continue        # the iterator at the start of the input
                 if isinstance(qa, tuple) and qa[0] == 'var' and qa[1] in x.params and is_int_ct(x.vars[qa[1]]['ct']) and \
                         not x.vars[qa[1]]['defs']:
                     notes.append('the scan starts at the offset `%s` given by the caller' % qa[2])
@@ -5752,6 +6067,19 @@ def literal_of(tu, x, e):
     return None
 
 
+def in_lambda_of(tu, f, nid):
+    """is node `nid` inside the body of a lambda written in function f (rather than a statement of f itself)?"""
+    i = tu.parent.get(nid)
+    for _ in range(200):
+        if i is None or i == f['id'] or i == f.get('body'):
+            return False
+        y = tu.nodes.get(i)
+        if y is not None and y.get('kind') == 'LambdaExpr':
+            return True
+        i = tu.parent.get(i)
+    return False
+
+
 def find_cuts(tu, x):
     """[(decl id, var info, literal text, literal length, source key, V, NOTFOUND, search call, kind)] for every local that is
     set once to the position of a literal delimiter: s.find(lit) (index) or std::find(s.begin(), s.end(), 'c') (iterator)"""
@@ -5764,6 +6092,8 @@ def find_cuts(tu, x):
         if e is None:
             continue
         V = Poly.atom(('var', d, v['name']))
+        if in_lambda_of(tu, x.f, d):
+            continue                   # declared inside a lambda body: not a statement of this function (the lambda is looked at on its own)
         if is_int_ct(v['ct']) and e.get('kind') == 'CXXMemberCallExpr' and last_name(tu.sd(e).get('q')) in FIND_DELIM and \
                 (tu.sd(e).get('q') or '').startswith('std::basic_string<'):
             s, obj, args = tu.call_parts(e)
@@ -5779,6 +6109,9 @@ def find_cuts(tu, x):
             ba = b_.as_atom()
             if lt is not None and isinstance(ba, tuple) and ba[0] == 'begin' and e_ == b_ + Poly.atom(('size', ba[1])):
                 out.append((d, v, lt[0], lt[1], ba[1], V, e_, e, 'iter'))
+            elif lt is not None and not any(isinstance(a_, tuple) and a_[0] in ('expr', 'unk') for a_ in (b_ - e_).atoms(deep=True)):
+                # a range [b, e) given by two pointers / iterators (a component addressed inside a larger string)
+                out.append((d, v, lt[0], lt[1], ('range', b_, e_), V, e_, e, 'iter'))
     return out
 
 
@@ -5814,12 +6147,16 @@ def cut_uses(tu, x, src, kind):
                 st_ = x.poly_at(real[1], pos)
                 ln_ = x.poly_at(real[2], pos) if len(real) == 3 else None
                 yield nd, pos, 'range', (st_, None if ln_ is None or ln_ == P_NPOS else ln_)
-            elif len(real) == 2 and all('__normal_iterator' in (tu.sd(tu.strip(a, casts=True)).get('ct') or tu.sd(a).get('ct') or '')
+            elif len(real) == 2 and all('__normal_iterator' in (tu.sd(tu.strip(a, casts=True)).get('ct') or tu.sd(a).get('ct') or '') or
+                                        plain_ct(tu.sd(tu.strip(a, casts=True)).get('ct') or tu.sd(a).get('ct') or '') in ('char *', 'const char *')
                                         for a in real):
                 yield nd, pos, 'iters', (x.poly_at(real[0], pos), x.poly_at(real[1], pos))
             continue
         if kind == 'index' and k == 'ReturnStmt' and tu.kids(nd) and is_int_ct(tu.sd(tu.strip(tu.kids(nd)[0], casts=True)).get('ct')):
             yield nd, pos, 'offset', (x.poly_at(tu.kids(nd)[0], pos),)
+        if kind == 'index' and k == 'BinaryOperator' and nd.get('opcode') == '=' and is_int_ct(tu.sd(nd).get('ct')) and \
+                x.var_of(tu.kids(nd)[0])[0] is not None:
+            yield nd, pos, 'offset', (x.poly_at(tu.kids(nd)[1], pos),)       # remainder = position + c, handed on as an offset
 
 
 def check_url_cuts(ctx, tu):
@@ -5833,6 +6170,12 @@ def check_url_cuts(ctx, tu):
         fns.append(f)
         # file-local helpers the constructor hands its pieces to (parse order is theirs as much as the constructor's)
         work = [f]
+        for y in tu.walk(tu.body(f)):
+            if y.get('kind') == 'LambdaExpr':
+                lf = tu.functions.get(tu.sd(y).get('op'))
+                if lf is not None and tu.cfg(lf) is not None and lf not in fns:
+                    fns.append(lf)
+                    work.append(lf)
         while work:
             cur = work.pop()
             for b, i, nd in tu.cfg(cur).stmts():
@@ -5861,8 +6204,11 @@ def check_url_cuts(ctx, tu):
                     for lf in (rels_of(nf) or []):
                         if lf is not None and lf[0] == 'rel' and lf[1] == Rel.make(V, '!=', NOTFOUND):
                             found = True
-                BEGIN = Poly.atom(('begin', src))
-                END = BEGIN + Poly.atom(('size', src))
+                if src[0] == 'range':
+                    BEGIN, END = src[1], src[2]
+                else:
+                    BEGIN = Poly.atom(('begin', src))
+                    END = BEGIN + Poly.atom(('size', src))
                 # normalise every form to (start, end) offsets relative to the cut position; None = open
                 head_c = tail_c = None
                 if form == 'range':            # (start index, length or None)
@@ -5926,7 +6272,14 @@ def check_url_cuts(ctx, tu):
                         first = ks_[0]
                 elif k2 == 'CXXMemberCallExpr' and last_name(tu.sd(nd).get('q')) == 'emplace_back' and len(tu.call_parts(nd)[2]) == 2:
                     first = tu.call_parts(nd)[2][0]
-                if first is None or x.objkey(x.peel(first)) != src:
+                whole = first is not None and x.objkey(x.peel(first)) == src
+                if first is not None and src[0] == 'range':
+                    fe = x.peel(first)
+                    fk = [y for y in tu.kids(fe) if y.get('kind') != 'CXXDefaultArgExpr' and 'allocator' not in (tu.sd(y).get('ct') or '')] \
+                        if fe is not None and fe.get('kind') in ('CXXConstructExpr', 'CXXTemporaryObjectExpr') else []
+                    if len(fk) == 2 and x.poly_at(fk[0], (b2.id, i2)) == src[1] and x.poly_at(fk[1], (b2.id, i2)) == src[2]:
+                        whole = True
+                if not whole:
                     continue
                 pos2 = (b2.id, i2)
                 notfound = False
@@ -6033,6 +6386,20 @@ WRAP = ('MaterializeTemporaryExpr', 'ImplicitCastExpr', 'CXXBindTemporaryExpr', 
         'CXXConstructExpr', 'CXXFunctionalCastExpr', 'CXXStaticCastExpr')
 
 
+def _owned_by_lambda(tu, f, nid):
+    """node `nid` lies in the body of a lambda written in f whose call operator is a function of its own in this unit"""
+    i = tu.parent.get(nid)
+    for _ in range(200):
+        if i is None or i == f['id'] or i == f.get('body'):
+            return False
+        y = tu.nodes.get(i)
+        if y is not None and y.get('kind') == 'LambdaExpr':
+            op = tu.functions.get(tu.sd(y).get('op'))
+            return op is not None and not op['dep'] and tu.body(op) is not None and op is not f
+        i = tu.parent.get(i)
+    return False
+
+
 def order_scan(tu, field_q):
     """classify every access to the member `field_q` in every function body of the unit:
        [(kind, text, node, function)]  kind: append | read | iterate | destroy | undecided"""
@@ -6093,6 +6460,7 @@ def order_scan(tu, field_q):
             return [('iterate', 'compare')]
         return [('undecided', 'iterator flows into `%s`' % tu.show(p))]
 
+    seen_nodes = set()
     for f in tu.functions.values():
         if f['dep'] or f.get('implicit') or f.get('defaulted'):
             continue
@@ -6102,6 +6470,9 @@ def order_scan(tu, field_q):
         for n in tu.walk(body):
             if n.get('kind') != 'MemberExpr' or tu.sd(n).get('q') != field_q or tu.sd(n).get('k') != 'member':
                 continue
+            if n['id'] in seen_nodes or _owned_by_lambda(tu, f, n['id']):
+                continue               # inside a lambda body: reported once, for the lambda's call operator
+            seen_nodes.add(n['id'])
             if (tu.sd(n).get('ct') or '').startswith('const '):
                 out.append(('read', 'const access', n, f))
                 continue
@@ -6147,6 +6518,186 @@ def order_scan(tu, field_q):
             else:
                 out.append(('undecided', 'the list is used in `%s`' % (tu.show(p) if p else '?'), n, f))
     return out
+
+
+def visitor_store_order(ctx, tu, f, x, recs, sch, R, inst, key):
+    """the constructor hands a lambda to the tokeniser's worker (the function checked under R-C18-2 / R-C18-7, or another
+    instance of the same template), which calls it once per token in ascending order; a bool local of the constructor,
+    initially false and set by the lambda, tells the first call (the file name) from all later ones (one store each).
+    Returns False if the shape is not this one at all (nothing reported)."""
+    lams = []
+    for y in tu.walk(tu.body(f)):
+        if y.get('kind') == 'LambdaExpr':
+            op = tu.functions.get(tu.sd(y).get('op'))
+            if op is not None and any(kind == 'append' and ff is op for kind, text, node, ff in recs):
+                lams.append((y, op))
+    if len(lams) != 1:
+        return False
+    lam, op = lams[0]
+    g = tu.cfg(op)
+    if g is None or len(op.get('params', [])) != 2:
+        return False
+    loc = tu.loc(lam)
+    # -- the call the lambda is handed to: one call, not in a loop, of a verified token worker
+    call = None
+    for b, i, nd in x.g.stmts():
+        if nd.get('kind') == 'CallExpr' and any(z is lam or z.get('id') == lam['id'] for a in tu.kids(nd)[1:] for z in tu.walk(a)):
+            call = (nd, (b.id, i))
+    if call is None:
+        ctx.undecided(R, inst, 'the lambda that stores the parameters is not handed to a function call directly', loc)
+        return True
+    hf = tu.callee_fn(call[0])
+    workers = [token_worker(tu, tf_) for tf_ in tu.fns(q='rkcommon::utility::tokenize') if not tf_['dep'] and tu.cfg(tf_) is not None]
+    same = hf is not None and any(hf is w or (hf.get('pat') is not None and hf.get('pat') == w.get('pat')) for w in workers)
+    if not same:
+        ctx.undecided(R, inst, 'the parameter-storing lambda is called by `%s`, which is not the token walk checked under R-C18-7: '
+                      'the order of its calls is not decided' % (tu.sd(call[0]).get('q') or tu.show(call[0])), loc)
+        return True
+    emits = [1 for _ in TokenFn(tu, hf).pushes()]
+    if not emits:
+        ctx.undecided(R, inst, 'cannot see where `%s` calls its visitor' % fn_name(hf), loc)
+        return True
+    for h in loops_of(x):
+        if call[1][0] in CountLoop._body_blocks(_Hdr(x, h)):
+            ctx.undecided(R, inst, 'the token walk is started inside a loop of the constructor', loc)
+            return True
+    # -- the flag: a bool local of the constructor, `false` to begin with, touched only inside the lambda
+    flags = {}
+    for y in tu.walk(tu.body(op)):
+        if y.get('kind') == 'DeclRefExpr':
+            d = tu.node(y.get('referencedDecl', {}).get('id'))
+            if d is not None and d.get('kind') == 'VarDecl' and d.get('type', {}).get('qualType') == 'bool' and \
+                    not in_lambda_of(tu, f, d['id']) and tu.enclosing_fn(d) is not None and tu.enclosing_fn(d)['id'] == f['id']:
+                flags[d['id']] = d
+    if len(flags) != 1:
+        ctx.undecided(R, inst, 'cannot tell how the lambda keeps the first token (the file name) apart from the parameters: '
+                      'expected one bool local of the constructor, found %d' % len(flags), loc)
+        return True
+    fid, fdecl = list(flags.items())[0]
+    ks = tu.kids(fdecl)
+    init = tu.strip(ks[0], casts=True) if ks else None
+    if init is None or init.get('kind') != 'CXXBoolLiteralExpr' or init.get('value') is not False:
+        ctx.undecided(R, inst, '`%s` does not start out as false' % fdecl.get('name'), loc)
+        return True
+    for y in tu.walk(tu.body(f)):
+        if y.get('kind') == 'DeclRefExpr' and y.get('referencedDecl', {}).get('id') == fid and not in_lambda_of(tu, f, y['id']):
+            ctx.undecided(R, inst, '`%s` is also used outside the lambda' % fdecl.get('name'), loc)
+            return True
+    append_ids = {}
+    for kind, text, node, ff in recs:
+        if kind == 'append' and ff is op and node is not None:
+            append_ids[node['id']] = append_ids.get(node['id'], 0) + 1
+    pids = [p_['id'] for p_ in op['params']]
+
+    def is_flag(e):
+        e = tu.strip(e, casts=True)
+        return e is not None and e.get('kind') == 'DeclRefExpr' and e.get('referencedDecl', {}).get('id') == fid
+
+    def token_extent(args):
+        ids = [(tu.strip(z, casts=True) or {}).get('referencedDecl', {}).get('id') for z in args]
+        return ids[-2:] == pids
+
+    odd = []
+
+    def transfer(blk, i, e, st):
+        if e[0] != 'S':
+            return [st]
+        nd = tu.node(e[1])
+        if nd is None:
+            return [st]
+        fin, cur, ap, fa = st
+        k = nd.get('kind')
+        if nd['id'] in append_ids:
+            ap = min(ap + append_ids[nd['id']], 3)
+        if k == 'BinaryOperator' and nd.get('opcode') == '=' and is_flag(tu.kids(nd)[0]):
+            r = tu.strip(tu.kids(nd)[1], casts=True)
+            if r is not None and r.get('kind') == 'CXXBoolLiteralExpr':
+                cur = bool(r.get('value'))
+            else:
+                odd.append('`%s`' % tu.show(nd))
+        elif k in ('CompoundAssignOperator', 'UnaryOperator') and nd.get('opcode') != '!' and tu.kids(nd) and is_flag(tu.kids(nd)[0]):
+            odd.append('`%s`' % tu.show(nd))
+        if k in ('CXXMemberCallExpr', 'CXXOperatorCallExpr'):
+            nm = last_name(tu.sd(nd).get('q'))
+            if k == 'CXXMemberCallExpr':
+                s_, obj, args = tu.call_parts(nd)
+            else:
+                obj, args = (tu.kids(nd)[1], tu.kids(nd)[2:]) if len(tu.kids(nd)) >= 2 else (None, [])
+            if nm in ('assign', 'operator=') and obj is not None and (tu.sd(nd).get('q') or '').startswith('std::basic_string<'):
+                o = tu.strip(obj, casts=True)
+                if o is not None and o.get('kind') == 'MemberExpr' and tu.sd(o).get('k') == 'member' and \
+                        last_name(tu.sd(o).get('q')) == 'fileName':
+                    real = [a for a in args if a.get('kind') != 'CXXDefaultArgExpr']
+                    ok_ = False
+                    if nm == 'assign' and len(real) == 3 and token_extent(real):
+                        ok_ = True
+                    elif len(real) == 1:
+                        r = FnX.peel(x, real[0])
+                        if r is not None and r.get('kind') == 'CXXMemberCallExpr' and last_name(tu.sd(r).get('q')) == 'substr' and \
+                                token_extent(tu.call_parts(r)[2]):
+                            ok_ = True
+                    fa = min(fa + 1, 2) if ok_ else 9
+        return [(fin, cur, ap, fa)]
+
+    def refine(blk, si, st):
+        c = deciding_cond(tu, blk, g)
+        e = tu.strip(c, casts=True) if c is not None else None
+        neg = False
+        while e is not None and e.get('kind') == 'UnaryOperator' and e.get('opcode') == '!':
+            neg = not neg
+            e = tu.strip(tu.kids(e)[0], casts=True)
+        if e is not None and is_flag(e) and len(blk.succ) == 2:
+            val = st[1] != neg             # value of the condition
+            return [st] if (si == 0) == val else []
+        return [st]
+
+    try:
+        res = g.explore([(False, False, 0, 0), (True, True, 0, 0)], transfer, refine, limit=20000)
+    except RuntimeError:
+        ctx.undecided(R, inst, 'the lambda has too many paths', loc)
+        return True
+    outs = {st for st, via in res.exits}
+    bad, und = [], list(odd)
+    nm = fdecl.get('name')
+    first = [st for st in outs if st[0] is False]
+    later = [st for st in outs if st[0] is True]
+    if not first or not later:
+        und.append('no path through the lambda found for %s' % ('the first call' if not first else 'the later calls'))
+    for fin, cur, ap, fa in first:
+        if ap:
+            bad.append(('params-loop-start', 'the first token (the file name, `%s` still false) is also stored as a parameter' % nm))
+        if cur is False:
+            bad.append(('params-per-token', 'a path of the first call leaves `%s` false: the next token is again taken for the file name '
+                        'and is stored 0 times as a parameter, expected exactly once' % nm))
+        if fa == 9:
+            und.append('the file name is assigned from something other than the token (offset, length)')
+        elif fa != 1 and not ap:
+            und.append('the first call assigns the file name %d times' % fa)
+    for fin, cur, ap, fa in later:
+        if ap != 1:
+            bad.append(('params-per-token', 'a token is stored (appended, or written over the entry of the same name) %d times on some '
+                        'path through the lambda once `%s` is set, expected exactly once' % (ap, nm)))
+        if fa:
+            bad.append(('file-name-token', 'a token behind the first one is assigned to the file name'))
+        if cur is False:
+            und.append('`%s` is reset by a later call' % nm)
+    for kind_, msg_, nd_ in sch.get('problems', []):
+        bad.append((kind_, msg_))
+    if sch['dup'] == 'unknown':
+        und.append('how the constructor stores repeated names is not decided: %s' % sch.get('why'))
+    if bad:
+        seen = set()
+        for k_, m_ in bad:
+            if (k_, m_) not in seen:
+                seen.add((k_, m_))
+                ctx.violation(R, inst, m_, loc, key=key + k_)
+    elif und:
+        for u in sorted(set(und)):
+            ctx.undecided(R, inst, u, loc)
+    else:
+        ctx.ok(R, inst, '`%s` calls the lambda once per token in ascending order (R-C18-7); first call (`%s` false): file name from '
+               'the token, no store; every later call: one store; %s' % (fn_name(hf), nm, sch['why']), loc)
+    return True
 
 
 def check_param_order(ctx, tu, tu_w, sch=None):
@@ -6199,6 +6750,8 @@ def check_param_order(ctx, tu, tu_w, sch=None):
         key = '%s|%s|%s|' % (R, file, fname)
         sites = [(node, x.pos_of(node)) for kind, text, node, ff in recs if kind == 'append' and ff is f]
         hs = [h for h in loops_of(x) if any(pos and pos[0] in CountLoop._body_blocks(_Hdr(x, h)) for nd, pos in sites)]
+        if not sites and visitor_store_order(ctx, tu, f, x, recs, sch, R, inst, key):
+            continue
         if len(hs) != 1 or not sites:
             ctx.undecided(R, inst, 'the appends are not inside exactly one loop', tu.fn_loc(f))
             continue
